@@ -873,7 +873,8 @@ class SSHTunTapStreamSession(SSHSocketStreamSession[bytes], SSHTunTapSession):
 
         recv_buf = self._recv_buf[datatype]
 
-        while not self._eof_received:
+        # Return packets received ahead of an EOF before reporting it
+        while recv_buf or not self._eof_received:
             if recv_buf:
                 data = cast(bytes, recv_buf.pop(0))
                 self._recv_buf_len -= len(data)
